@@ -70,7 +70,8 @@ CG0 = np.array([0.4, 0.0, 0.15])
 def run_model(meshes, syms, s, v=60.0, rho=1.1, re=1.0e6, cg=CG0, h=H0):
     surfs = []
     for k, (m, sy) in enumerate(zip(meshes, syms)):
-        kw = dict(with_viscous=s["visc"], CD0=0.01 if s["visc"] else 0.0, CL0=0.0, k_lam=s.get("k_lam", 0.05))
+        # viscous states also carry non-zero zero-alpha coefficients, different per surface (CL = CL1 + CL0 is what the aircraft sums use)
+        kw = dict(with_viscous=s["visc"], CD0=0.01 * (k + 1) if s["visc"] else 0.0, CL0=0.04 * (k + 1) if s["visc"] else 0.0, k_lam=s.get("k_lam", 0.05))
         if s["ground"]:
             kw["groundplane"] = True
         surfs.append(builders.aero_surface("s%d" % k, m, sy, **kw))
